@@ -38,6 +38,14 @@ def main(repo="/repo"):
             out[f"{rel}::{cls or ''}::{name}"] = [norm(h) for h in hits]      # properties with setters have several defs
         json.dump(out, open(os.path.join(HERE, f"shapes_{unit}.json"), "w"), indent=1)
         print(unit, len(out))
+    sys.path.insert(0, HERE)
+    from translate import skeleton
+    skel = {}
+    for unit, spec in json.load(open(os.path.join(HERE, "skeleton_units.json"))).items():
+        for rel in spec["files"]:
+            skel[rel] = skeleton(ast.parse(open(os.path.join(repo, rel)).read()).body)
+    json.dump(skel, open(os.path.join(HERE, "skeletons.json"), "w"), indent=1)
+    print("skeletons", len(skel))
 
 
 if __name__ == "__main__":
